@@ -425,6 +425,9 @@ func (t TransportLayerCC) Marshal() ([]byte, error) {
 	var i int
 	for _, delta := range t.RecvDeltas {
 		b, err := delta.Marshal()
+		if err != nil {
+			return nil, err
+		}
 		if err == nil {
 			copy(payload[recvDeltaOffset+i:], b)
 			i++
